@@ -35,8 +35,8 @@ Ltac gored :=
   unfold call_at;
   cbn [Nat.add i_eval i_assign i_exec i_loop i_call eval_step assign_step exec_step call_step
        loop_step evals fields execs assigns select matches range type_of find_fn Pos.eqb andb orb negb
-       bind_all set lookup rbind zero_of arith spread length Nat.eqb ret_val as_slice re_slice fold_left
-       is_place fst snd app Bool.eqb fn_recv fn_params fn_body it_val arr_val lst_val lcls_val stk_val].
+       bind_all set lookup rbind at_state zero_of arith spread length Nat.eqb ret_val as_slice re_slice fold_left
+       is_place fst snd app Bool.eqb fn_recv fn_params fn_body it_val arr_val lst_val lcls_val stk_val set_val col_val rank_ext].
 
 (* look a method (or a struct declaration) up in the generated program, by computation *)
 Ltac gofind :=
@@ -81,6 +81,23 @@ Ltac fuel F K :=
 Section Facts.
 Variable A : Type.
 Variable zero : A.
+
+Lemma lookup_set_same {X} (x : ident) (v : X) (l : list (ident * X)) : lookup x (set x v l) = Some v.
+Proof.
+  induction l as [|[y w] t IH]; cbn [set lookup].
+  - rewrite Pos.eqb_refl. reflexivity.
+  - destruct (Pos.eqb x y) eqn:E; cbn [lookup]; rewrite E; [reflexivity|exact IH].
+Qed.
+
+Lemma lookup_set_other {X} (x y : ident) (v : X) (l : list (ident * X)) :
+  x <> y -> lookup x (set y v l) = lookup x l.
+Proof.
+  intros N. induction l as [|[z w] t IH]; cbn [set lookup].
+  - destruct (Pos.eqb_spec x y); [contradiction|reflexivity].
+  - destruct (Pos.eqb_spec y z) as [->|Nz]; cbn [lookup].
+    + destruct (Pos.eqb_spec x z); [contradiction|reflexivity].
+    + destruct (Pos.eqb x z); [reflexivity|exact IH].
+Qed.
 
 Lemma elems_length (l : list A) : length (elems l) = length l.
 Proof. apply map_length. Qed.
